@@ -86,6 +86,9 @@ pub struct ExpectProxyProtocol<Front: SocketHandler> {
     pub frontend: Front,
     header_len: HeaderLen,
     index: usize,
+    /// length of the parsed header: bytes `[header_end..index]` of the buffer
+    /// were read from the socket after it and belong to the client's stream
+    header_end: Option<usize>,
     pub request_id: Ulid,
 }
 
@@ -111,6 +114,7 @@ impl<Front: SocketHandler> ExpectProxyProtocol<Front> {
             frontend,
             header_len: HeaderLen::V4,
             index: 0,
+            header_end: None,
             request_id,
         }
     }
@@ -231,6 +235,7 @@ impl<Front: SocketHandler> ExpectProxyProtocol<Front> {
                     header,
                     rest.len()
                 );
+                self.header_end = Some(self.index - rest.len());
                 self.addresses = Some(header.addr);
                 SessionResult::Upgrade
             }
@@ -298,6 +303,27 @@ impl<Front: SocketHandler> ExpectProxyProtocol<Front> {
             .and_then(|pa| pa.source())
             .or_else(|| self.front_socket().peer_addr().ok());
 
+        // The read window (28, then 52, then 232 bytes) is wider than a header
+        // without addresses or with a TLV tail: what was read past the header is
+        // the beginning of the client's stream and goes to the backend first.
+        let mut front_buf = front_buf;
+        let leftover = match self.header_end {
+            Some(end) if end < self.index => &self.frontend_buffer[end..self.index],
+            _ => &[][..],
+        };
+        let has_leftover = !leftover.is_empty();
+        if has_leftover {
+            use std::io::Write;
+            if let Err(e) = front_buf.write_all(leftover) {
+                error!(
+                    "{} could not keep {} bytes read after the proxy protocol header: {}",
+                    log_module_context!(),
+                    leftover.len(),
+                    e
+                );
+            }
+        }
+
         let mut pipe = Pipe::new(
             back_buf,
             None,
@@ -318,6 +344,9 @@ impl<Front: SocketHandler> ExpectProxyProtocol<Front> {
         );
 
         pipe.frontend_readiness.event = self.frontend_readiness.event;
+        if has_leftover {
+            pipe.backend_readiness.interest.insert(Ready::WRITABLE);
+        }
 
         if let Some(backend_token) = backend_token {
             pipe.set_back_token(backend_token);
